@@ -29,6 +29,7 @@ type TierCfg struct {
 	MaxPaths   int            `json:"max_paths"`
 	MaxWallS   int            `json:"max_wall_s"`
 	Cross      string         `json:"cross_solver"`
+	CrossEvery int            `json:"cross_every"`
 	BoundsText string         `json:"bounds_text"`
 }
 
@@ -157,6 +158,13 @@ func runCheck(id, tier string) int {
 	}
 	if sv := os.Getenv("VERIF_SOLVER"); sv != "" {
 		cfg.Solver = SolverKind(sv)
+	}
+	if tc.Cross != "" {
+		cfg.CrossSolver = SolverKind(tc.Cross)
+		cfg.CrossEvery = tc.CrossEvery
+		if cfg.CrossEvery == 0 {
+			cfg.CrossEvery = 10
+		}
 	}
 	if tc.Unwind > 0 {
 		cfg.Unwind = tc.Unwind
@@ -447,6 +455,7 @@ func tail(s string, n int) string {
 func writeEvidence(id, tier string, seed int64, results []*HarnessResult, cc *CheckCfg, tc *TierCfg, inconclusive []string,
 	viol []map[string]interface{}, validated int, wall float64, P *Program, valMismatch int) {
 	states, transitions, queries, unsat, sat, unknown, modelHits := 0, 0, 0, 0, 0, 0, 0
+	cross, crossAgree, crossUnknown := 0, 0, 0
 	var solverS float64
 	funcs := map[string]bool{}
 	covers := map[string]int{}
@@ -464,6 +473,9 @@ func writeEvidence(id, tier string, seed int64, results []*HarnessResult, cc *Ch
 		sat += r.SatQ
 		unknown += r.UnknownQ
 		modelHits += r.ModelHits
+		cross += r.Cross
+		crossAgree += r.CrossAgree
+		crossUnknown += r.CrossUnknown
 		solverS += float64(r.SolverNs) / 1e9
 		for f := range r.Funcs {
 			funcs[f] = true
@@ -530,6 +542,8 @@ func writeEvidence(id, tier string, seed int64, results []*HarnessResult, cc *Ch
 		"inconclusive":                     inconclusive,
 		"violations_detail":                viol,
 		"translator_validation_mismatches": valMismatch,
+		"second_solver": map[string]interface{}{"solver": tc.Cross, "verdict_queries_rechecked": cross, "agreed": crossAgree, "second_solver_unknown": crossUnknown,
+			"note": "a sample of the verdict queries (assertions and panic checks) is re-decided as a fresh one-shot problem on the second solver; a disagreement aborts the run as INCONCLUSIVE"},
 	}
 	if P != nil {
 		cov["ssa_load_s"] = P.loadSeconds
